@@ -491,7 +491,10 @@ class ScopeRender:
         pending_goto = []      # (marker, name, copy) of the current function
         frames = []            # open statement / substatement scopes: their text is assembled when they close
         C = range(self.copies)
+        skip = set()           # items already rendered inside the member list of the preceding struct item
         for K, it in enumerate(self.prog):
+            if K in skip:
+                continue
             op = it["op"]
             top = stack[-1]
             if op == "open":
@@ -588,6 +591,12 @@ class ScopeRender:
                         out.append("%s %s;" % (k, n))
                     elif k in ("struct", "union"):
                         mt, extra = self.members(it, c)
+                        if it.get("nest"):      # a tag with body and an enumerator declared inside the member list
+                            ti, ei = self.prog[K + 1], self.prog[K + 2]
+                            skip.update((K + 1, K + 2))
+                            mt += " struct %s { char m[%d]; } chkmb_%d; char chkme_%d[sizeof(enum { %s = %d })];" % (
+                                self.nm(ti["name"], c), self.U(ti["id"], c), K, K, self.nm(ei["name"], c), self.U(ei["id"], c))
+                            extra += self.U(ti["id"], c) + 4
                         if extra:
                             self.size[(it["id"], c)] = u + extra
                         t = "%s %s { char m[%d];%s }" % (k, n, u, mt)
@@ -936,6 +945,12 @@ def scope_check(ctx, objdir, hooks, exe):
     if not any(it.get("how") == "funcx" for c in fx for it in c["prog"]):
         raise vlib.MachineryError("MC_CScope_fx generated no multi-declarator function definition")
     scope_programs(ctx, objdir, exe, fx, "funcx", audit_n=40 if q else 300)
+    # tags / enumeration constants declared inside struct member lists stay visible after the closing brace
+    r = ctx.tlc_must_pass("CScope", "MC_CScope_nest.cfg", workers=2, simulate=25 if q else 200, depth=150, timeout=1200)
+    ne = [json.loads(v) for v in r.vcases]
+    if not any(it.get("nest") for c in ne for it in c["prog"]):
+        raise vlib.MachineryError("MC_CScope_nest generated no nested member-list declaration")
+    scope_programs(ctx, objdir, exe, ne, "nest", audit_n=40 if q else 300)
     # declarators spelled like visible typedef names after every kind of type specifier
     r = ctx.tlc_must_pass("CScope", "MC_CScope_td.cfg", workers=2, simulate=30 if q else 250, depth=150, timeout=1200)
     td = [json.loads(v) for v in r.vcases]
@@ -1057,7 +1072,7 @@ def run(ctx):
             for m in re.finditer(r"^<(\w+) line \d+, col \d+ to line \d+, col \d+ of module (\w+) \((\d+) \d+ \d+ \d+\)>: (\d+):(\d+)", r.out, re.M):
                 cov["%s@%s:%s" % (m.group(1), m.group(2), m.group(3))] = (int(m.group(4)), int(m.group(5)))   # disjuncts of a Next without own name
             r.coverage = cov
-            untaken = [a for a, (found, gen) in r.coverage.items() if gen == 0 and a.split("@")[0] not in ("Turn", "OpenFuncX", "OpenStmt", "OpenSub", "CloseSub", "CloseStmt", "DeclLinked", "DeclTD")]
+            untaken = [a for a, (found, gen) in r.coverage.items() if gen == 0 and a.split("@")[0] not in ("Turn", "OpenFuncX", "OpenStmt", "OpenSub", "CloseSub", "CloseStmt", "DeclLinked", "DeclTD", "DeclTagNest")]
             # Turn: Deep only; OpenFuncX / statement scopes: enabled only in MC_CScope_fx / _stmt (simulation), where
             # scope_check itself refuses to continue unless every shape / statement form was generated
             ctx.cov.setdefault("untaken_actions", []).extend(untaken)
